@@ -1317,6 +1317,88 @@ F9_LINE = ("F9 HTTPPolicySource.etag() is the locally cached tag: server change 
            "(witness corpus/C10_F9_http_etag.json)")
 
 
+def library_writer(run: lib.Run, tmpdir: str) -> list[dict]:
+    """the shipped file source fed by the library's OWN writer: documents are published with rbacx.store.file_store.atomic_write (what the
+    histories above do with open/write/utime at chosen mtimes).  Rounds on ONE FilePolicySource + HotReloader + Guard: the file is given
+    an mtime far in the past (so that "now" differs from it whatever the clock granularity — no sleeping), the reloader settles (≤2
+    checks), then a NEW document is published through atomic_write — of the SAME byte length as the one it replaces in half of the
+    rounds — and at most two unforced checks later the engine must decide by it (a probe decision, not the held document).
+    Both tag modes, JSON and YAML, initial_load on and off.  The clock of the reloader never enters a back-off window (no failures)."""
+    import itertools as it
+    from rbacx.core.model import Action, Context, Resource, Subject
+    from rbacx.store import file_store as fs
+    failures: list[dict] = []
+
+    def doc(i: int, effect: str, pad: int = 0) -> dict:
+        return {"algorithm": "deny-overrides", "marker": f"lw{i:03d}" + "x" * pad,
+                "rules": [{"id": f"r{i:03d}", "effect": effect, "actions": ["read"], "resource": {"type": "doc"}}]}
+
+    def text_of(dump, i: int, effect: str, size: int) -> str:
+        """the document of round i rendered to exactly `size` bytes (the marker is padded)"""
+        base = len(dump(doc(i, effect)).encode())
+        if size < base:
+            raise lib.CheckError("library_writer: target size below the document's own size")
+        t = dump(doc(i, effect, size - base))
+        assert len(t.encode()) == size
+        return t
+
+    def probe(g) -> tuple:
+        d = g.evaluate_sync(Subject(id="u"), Action("read"), Resource(type="doc", id="1"), Context())
+        return (d.effect, d.rule_id)
+    for ext, mt, initial in it.product((".json", ".yaml"), (False, True), (True, False)):
+        path = os.path.join(tmpdir, f"libwriter{int(mt)}{int(initial)}{ext}")
+        dump = (lambda d: json.dumps(d)) if ext == ".json" else (lambda d: json.dumps(d, indent=1))   # JSON text is YAML
+        try:
+            with open(path, "w", encoding="utf-8") as f:
+                f.write(text_of(dump, 0, "deny", 400))
+            os.utime(path, ns=(BASE_LW, BASE_LW))
+            g = Guard(dict(POLICY0))
+            src = fs.FilePolicySource(path, include_mtime_in_etag=mt)
+            env = types.SimpleNamespace(clock_us=10_000_000, u=0.0, u_by_thread={})
+            _Current.env = env
+            rl = HotReloader(g, src, initial_load=initial, poll_interval=1.0)
+            trace: list = []
+            for i in range(1, 7):
+                # settle: whatever is on disk now has been seen (or, with initial_load off, is the reloader's baseline)
+                for _ in range(2):
+                    env.clock_us += 1_000_000
+                    rl.check_and_reload()
+                os.utime(path, ns=(BASE_LW + i, BASE_LW + i))        # content unchanged; mtime in the past, distinct per round
+                for _ in range(2):
+                    env.clock_us += 1_000_000
+                    rl.check_and_reload()
+                same_len = i % 2 == 1
+                effect = "permit" if i % 3 else "deny"
+                old_size = os.path.getsize(path)
+                text = text_of(dump, i, effect, old_size if same_len else old_size + 3 + i)
+                fs.atomic_write(path, text)
+                results = []
+                for _ in range(2):
+                    env.clock_us += 1_000_000
+                    results.append(rl.check_and_reload())
+                got = probe(g)
+                want = (effect, f"r{i:03d}")
+                trace.append({"round": i, "same_byte_length": len(text.encode()) == old_size, "checks": results, "decides": list(got), "expected": list(want)})
+                run.evaluations += 1
+                run.count("library-writer-rounds")
+                run.nontrivial.add(f"lw{ext}{mt}{initial}{i}")
+                if got != want:
+                    failures.append({"part": "library writer", "ext": ext, "include_mtime_in_etag": mt, "initial_load": initial, "rounds": trace,
+                                     "what": "a document published through rbacx.store.file_store.atomic_write (the file's previous mtime lies in the past) "
+                                             "is not enforced after two unforced checks outside any back-off window: C10 convergence on the shipped file source"})
+                    break
+        finally:
+            _Current.env = None
+            if os.path.exists(path):
+                os.unlink(path)
+        if failures:
+            break
+    return failures
+
+
+BASE_LW = 1_600_000_000 * 10 ** 9
+
+
 def check(run: lib.Run, audit: dict) -> int:
     run.rule = ("exhaustive: every history of length ≤3 (quick) / ≤4 (thorough) over the event alphabet {write new valid doc, "
                 "write invalid doc, delete, check, forced check, check with a change between etag() and load(), short advance, "
@@ -1383,6 +1465,11 @@ def check(run: lib.Run, audit: dict) -> int:
         run_cases(run, tally, all_cases(run, scale=run.boost * (1 if ok_tr else 2)), tmpdir)
         if (run.disagreements or not ok_tr) and not run.spec_failures and not violations:
             run_cases(run, tally, all_cases(run, scale=4 if run.boost == 1 else 2), tmpdir)   # correspondence broke: widen the search for a failing input
+        # 2b. the shipped file source fed by the library's own writer (directed; real FilePolicySource / HotReloader / Guard)
+        lw = library_writer(run, tmpdir)
+        if lw and not run.spec_failures:
+            path = run.write_replay("spec", lw[0])
+            violations.append((path, True))
         # 3. verdicts
         if run.spec_failures:
             v = min(run.spec_failures, key=lambda x: (any(e["e"] == "conc" for e in x["case"]["history"]), len(x["case"]["history"])))
@@ -1438,6 +1525,12 @@ def replay(run: lib.Run, audit: dict, path: str) -> int:
         path = os.path.join(lib.VERIF, path)
     rp = json.load(open(path))
     case = rp.get("case") or rp
+    if rp.get("part") == "library writer":
+        with tempfile.TemporaryDirectory(prefix="c10_") as tmpdir, _Patched():
+            lw = library_writer(run, tmpdir)
+        print("now:", json.dumps(lw[0], default=str)[:3000] if lw else "every document published through atomic_write is enforced within two checks")
+        print("recorded:", json.dumps(rp, default=str)[:3000])
+        return 1 if lw else 0
     if "history" not in case:
         # an undischarged obligation / a translated-vs-python disagreement: nothing to re-execute on the reloader histories; show the record
         tr = audit["facts"].get("translated_reloader")
